@@ -134,10 +134,11 @@ func coqCall(net uint32, k *jCall) string {
 	for _, s := range k.Signers {
 		sg = append(sg, coqAddrH(s))
 	}
-	caller := "None"
-	if k.Caller != "" {
-		caller = "(Some " + coqAddrH(k.Caller) + ")"
+	var st []string
+	for _, x := range k.callStack() {
+		st = append(st, coqAddrH(x))
 	}
+	caller := hx.CoqList(st)
 	on, wrap := v2onAt(net, k.Height)
 	ctx := fmt.Sprintf("(mkCtx %s %s %s %s %s %s)", hx.CoqList(sg), caller, hx.CoqZ(int64(k.Time)), hx.CoqBool(k.PreExec), hx.CoqBool(on), hx.CoqBool(wrap))
 	var op string
@@ -164,7 +165,9 @@ func witnessed(k *jCall, a common.Address) bool {
 			return true
 		}
 	}
-	return k.Caller != "" && addrOf(k.Caller) == a
+	// the contract half of CheckWitness: the IMMEDIATE caller of the token contract only
+	st := k.callStack()
+	return len(st) > 0 && addrOf(st[len(st)-1]) == a
 }
 
 type stepInfo struct {
@@ -222,7 +225,8 @@ func checkStep(c *hx.Ctx, seq *jSeq, i int, k *jCall, failed bool, before, after
 				}
 			}
 			c.Fail("unauthorized-debit", "a debit needs the owner's witness or an equal decrease of an allowance it granted", in,
-				got(map[string]string{"token": tok, "account": hexOf(e.A), "decrease": dec.String()}), "witness or allowance")
+				got(map[string]interface{}{"token": tok, "account": hexOf(e.A), "decrease": dec.String(),
+					"signers": k.Signers, "call_stack_below_token_contract": k.callStack()}), "debited account signed, or is the immediate caller of the token contract, or an equal allowance decrease")
 		}
 		// allowance increases
 		for _, e := range after.Allow[tok] {
